@@ -1014,11 +1014,14 @@ class _FStringRule(SyntaxRule):
         self._check_fstring_contents(format_spec.children[1:], depth)
 
     def _check_fstring_expr(self, fstring_expr, depth):
-        if depth >= 2:
+        # PEP 701 (Python 3.12) lifted the nesting limit and allows
+        # backslashes in the expression part.
+        pep_701 = self._normalizer.version >= (3, 12)
+        if depth >= 2 and not pep_701:
             self.add_issue(fstring_expr, message=self.message_nested)
 
         expr = fstring_expr.children[1]
-        if '\\' in expr.get_code():
+        if '\\' in expr.get_code() and not pep_701:
             self.add_issue(expr, message=self.message_expr)
 
         children_2 = fstring_expr.children[2]
